@@ -8,6 +8,7 @@ import (
 	cmtproto "github.com/cometbft/cometbft/proto/tendermint/types"
 	banktypes "github.com/cosmos/cosmos-sdk/x/bank/types"
 
+	cltypes "github.com/osmosis-labs/osmosis/v31/x/concentrated-liquidity/types"
 	pmtypes "github.com/osmosis-labs/osmosis/v31/x/poolmanager/types"
 	protorevtypes "github.com/osmosis-labs/osmosis/v31/x/protorev/types"
 	valsettypes "github.com/osmosis-labs/osmosis/v31/x/valset-pref/types"
@@ -31,6 +32,7 @@ var grafts = []graft{
 	{"C19-protorev-state-not-exported", protorevtypes.StoreKey, protorevtypes.KeyPrefixTradesByRoute},
 	{"C19-protorev-state-not-exported", protorevtypes.StoreKey, protorevtypes.KeyPrefixProfitsByRoute},
 	{"C19-bank-supply-offset-not-exported", banktypes.StoreKey, banktypes.SupplyOffsetKey},
+	{"C19-cl-full-range-liquidity-recomputed", cltypes.StoreKey, cltypes.FullRangeLiquidityPrefix},
 	{"C19-poolmanager-taker-fee-share-not-exported", pmtypes.StoreKey, pmtypes.KeyTakerFeeShare},
 	{"C19-poolmanager-taker-fee-share-not-exported", pmtypes.StoreKey, pmtypes.KeyRegisteredAlloyPool},
 	{"C19-poolmanager-taker-fee-share-not-exported", pmtypes.StoreKey, pmtypes.TakerFeeSkimAccrualPrefix},
